@@ -46,11 +46,12 @@ package server
 //@ emits RolloutSplit(s, percentage)
 //@ assigns s.rolloutController
 //@ ensures[C17] no_timed_wait: now == old(now)
-//@ ensures[C06,C18] lock_released_on_every_path: !held(s.serviceLock)
+//@ ensures[C06,C10,C17,C18] lock_released_on_every_path: !held(s.serviceLock)
 //@ ensures[C10,C06] rejected: old(s.rollout) == nil ==> err == ErrorRolloutTargetNotSet && s.rolloutController == old(s.rolloutController)
 //@ ensures[C10] accepted: old(s.rollout) != nil ==> err == nil && fresh(s.rolloutController) && s.rolloutController.Percentage == percentage && s.rolloutController.PercentageSplitPoint == fpSplit(percentage) && s.rolloutController.Allowlist == allowlist
 
 //@ func (*server.Service).StopRollout
+//@ emits RolloutStopped(s)
 //@ assigns s.rolloutController
 //@ ensures[C10] cleared: err == nil && s.rolloutController == nil
 //@ ensures[C17] no_timed_wait: now == old(now)
@@ -113,7 +114,7 @@ package server
 //@ assigns *
 //@ ensures[C15,C03] inflight_removed: !haskey(t.inflight, req)
 //@ on_panic ensures[C15,C03] inflight_removed_on_panic: !haskey(t.inflight, req)
-//@ ensures[C15,C19] one_forward: count(Forward(_, _, _)) == 1 && emitted(Forward(old(t.proxyHandler), _, req))
+//@ ensures[C13,C15,C19] one_forward: count(Forward(_, _, _)) == 1 && emitted(Forward(old(t.proxyHandler), _, req))
 //@ ensures[C15] lock_released: !held(t.inflightLock)
 
 //@ func server.NewPauseController
@@ -267,6 +268,9 @@ package server
 //@ func (*server.LoadBalancer).TargetStateChanged
 //@ assigns lb.healthy
 //@ emits StateChanged(lb, target)
+//@ ensures[C09,C01,C02] rotation_holds_only_healthy_targets: forall j int :: 0 <= j && j < len(lb.healthy) ==> lb.healthy[j].state == TargetStateHealthy && (exists i int :: 0 <= i && i < len(lb.all) && lb.healthy[j] == lb.all[i])
+//@ ensures[C09,C01,C02] rotation_holds_every_healthy_target: forall i int :: 0 <= i && i < len(lb.all) && lb.all[i].state == TargetStateHealthy ==> (exists j int :: 0 <= j && j < len(lb.healthy) && lb.healthy[j] == lb.all[i])
+//@ ensures[C18] lock_free: !held(lb.lock)
 
 //@ func (*server.Target).HealthCheckCompleted
 //@ may_emit Close, StateChanged
@@ -474,6 +478,10 @@ package server
 //@ ensures[C06] malformed_target_rejected: !hostMatch(targetURL) ==> err != nil && result0 == nil
 //@ ensures[C06,C17] built: hostMatch(targetURL) ==> err == nil && fresh(result0) && targetWF(result0) && result0.state == TargetStateAdding && result0.healthcheck == nil && result0.becameHealthy == nil && !everHealthy(result0)
 //@ ensures[C11,C13,C14] keeps_options: err == nil ==> result0.options.HealthCheckConfig == options.HealthCheckConfig && result0.options.ResponseTimeout == options.ResponseTimeout && result0.options.BufferRequests == options.BufferRequests && result0.options.BufferResponses == options.BufferResponses && result0.options.MaxMemoryBufferSize == options.MaxMemoryBufferSize && result0.options.MaxRequestBodySize == options.MaxRequestBodySize && result0.options.MaxResponseBodySize == options.MaxResponseBodySize && result0.options.ForwardHeaders == options.ForwardHeaders
+//@ ensures[C13,C14,C15] request_buffer_is_outermost_and_uses_the_request_limit: err == nil && options.BufferRequests ==> typeis(result0.proxyHandler, `*RequestBufferMiddleware`) && as(payload(result0.proxyHandler), `*RequestBufferMiddleware`).maxBytes == options.MaxRequestBodySize && as(payload(result0.proxyHandler), `*RequestBufferMiddleware`).maxMemBytes == options.MaxMemoryBufferSize
+//@ ensures[C13,C14,C15] response_buffer_uses_the_response_limit: err == nil && options.BufferResponses && !options.BufferRequests ==> typeis(result0.proxyHandler, `*ResponseBufferMiddleware`) && as(payload(result0.proxyHandler), `*ResponseBufferMiddleware`).maxBytes == options.MaxResponseBodySize && as(payload(result0.proxyHandler), `*ResponseBufferMiddleware`).maxMemBytes == options.MaxMemoryBufferSize
+//@ ensures[C13,C14,C15] response_buffer_inside_the_request_buffer: err == nil && options.BufferResponses && options.BufferRequests ==> typeis(as(payload(result0.proxyHandler), `*RequestBufferMiddleware`).next, `*ResponseBufferMiddleware`) && as(payload(as(payload(result0.proxyHandler), `*RequestBufferMiddleware`).next), `*ResponseBufferMiddleware`).maxBytes == options.MaxResponseBodySize && as(payload(as(payload(result0.proxyHandler), `*RequestBufferMiddleware`).next), `*ResponseBufferMiddleware`).maxMemBytes == options.MaxMemoryBufferSize
+//@ ensures[C13,C14] no_buffering_unless_asked: err == nil && !options.BufferResponses && !options.BufferRequests ==> !typeis(result0.proxyHandler, `*RequestBufferMiddleware`) && !typeis(result0.proxyHandler, `*ResponseBufferMiddleware`)
 //@ ensures[C06,C17] no_probing_yet: none(NewHealthCheck) && none(Go)
 
 //@ func (*server.Target).BeginHealthChecks
@@ -518,7 +526,7 @@ package server
 //@ func (*server.Service).UpdateLoadBalancer
 //@ requires lb != nil && lbReady(lb)
 //@ assigns s.active, s.rollout
-//@ ensures[C02,C10,C01,C03] swaps_slot: (slot == TargetSlotRollout ==> s.rollout == lb && result == old(s.rollout) && s.active == old(s.active)) && (slot != TargetSlotRollout ==> s.active == lb && result == old(s.active) && s.rollout == old(s.rollout))
+//@ ensures[C02,C10,C01,C03,C06,C09,C17] swaps_slot: (slot == TargetSlotRollout ==> s.rollout == lb && result == old(s.rollout) && s.active == old(s.active)) && (slot != TargetSlotRollout ==> s.active == lb && result == old(s.active) && s.rollout == old(s.rollout))
 //@ ensures[C03] replaced_was_serving: result != nil ==> lbReady(result)
 //@ ensures[C18] lock_free: !held(s.serviceLock)
 //@ emits UpdateLB(s, lb, slot, result)
@@ -575,6 +583,7 @@ package server
 //@ ensures[C11,C12,C05,C10] a_successful_deploy_is_installed_and_saved: err == nil ==> count(Install(_, _)) == 1
 //@ ensures[C17] bounded_by_deploy_plus_drain_timeout: now <= old(now) + max(deployTimeout, 0) + max(drainTimeout, 0)
 //@ ensures[C01,C17] deploy_timeout_used_for_the_wait: all(WaitHealthy, $1 == deployTimeout)
+//@ ensures[C06,C10] deploying_targets_leaves_the_split_alone: none(RolloutStopped) && none(RolloutSplit)
 
 //@ func (*server.Service).createCertManager
 //@ assigns nothing
@@ -771,6 +780,7 @@ package server
 //@ may_emit *
 //@ ensures[C14] too_large_is_413_and_target_not_contacted: emitted(HttpError(w, 413)) ==> none(Forward)
 //@ ensures[C14] any_buffering_error_stops_the_request: count(HttpError(_, _)) + count(Forward(_, _, _)) == 1 && (emitted(HttpError(_, _)) ==> emitted(HttpError(w, 413)) || emitted(HttpError(w, 500)))
+//@ ensures[C13,C14] rejections_are_the_buffers_verdict: first(BufferedBody(_, _, _), HttpError(_, _))
 //@ ensures[C14] target_contacted_only_after_the_whole_body_is_buffered: first(BufferedBody(_, _, _), Forward(_, _, _)) && all(BufferedBody, $1 == old(h.maxBytes) && $2 == old(h.maxMemBytes))
 
 //@ func (*server.Buffer).setReader
@@ -823,8 +833,9 @@ package server
 //@ may_emit *
 //@ ensures[C14] buffer_closed_on_every_path: count(CloseBuffer(_)) == 1
 //@ on_panic ensures[C14] buffer_closed_when_the_target_aborts: count(CloseBuffer(_)) == 1
-//@ ensures[C14] forwards_once_then_sends: count(Forward(_, _, _)) == 1 && count(SendResponse(_, _, _)) == 1 && first(Forward(_, _, _), SendResponse(_, _, _)) && first(SendResponse(_, _, _), CloseBuffer(_))
+//@ ensures[C13,C14,C15,C19] forwards_once_then_sends: count(Forward(_, _, _)) == 1 && count(SendResponse(_, _, _)) == 1 && first(Forward(_, _, _), SendResponse(_, _, _)) && first(SendResponse(_, _, _), CloseBuffer(_))
 //@ ensures[C14] overflow_is_500: count(HttpError(_, _)) <= 1 && all(HttpError, $1 == 500) && first(SendResponse(_, _, _), HttpError(_, _))
+//@ ensures[C13,C14,C15] the_buffering_layer_adds_no_headers_of_its_own: none(SetHeader)
 
 //@ func server.newLoggerResponseWriter
 //@ assigns nothing
@@ -971,8 +982,8 @@ package server
 //@ emits CheckAvail(m, name)
 //@ requires tableWF(m)
 //@ assigns nothing
-//@ ensures[C05] free_means_no_other_owner: result == nil ==> forall hi int, pi int :: 0 <= hi && hi < len(options.Hosts) && 0 <= pi && pi < len(options.PathPrefixes) ==> !ownedByOther(m, options.Hosts[hi], options.PathPrefixes[pi], name)
-//@ ensures[C05] conflict_names_another_owner: result != nil ==> result.name != name && exists hi int, pi int, bi int :: 0 <= hi && hi < len(options.Hosts) && 0 <= pi && pi < len(options.PathPrefixes) && haskey(m.requestServiceMap, options.Hosts[hi]) && 0 <= bi && bi < len(m.requestServiceMap[options.Hosts[hi]]) && m.requestServiceMap[options.Hosts[hi]][bi].service == result && m.requestServiceMap[options.Hosts[hi]][bi].pathPrefix == options.PathPrefixes[pi]
+//@ ensures[C05,C04] free_means_no_other_owner: result == nil ==> forall hi int, pi int :: 0 <= hi && hi < len(options.Hosts) && 0 <= pi && pi < len(options.PathPrefixes) ==> !ownedByOther(m, options.Hosts[hi], options.PathPrefixes[pi], name)
+//@ ensures[C05,C04] conflict_names_another_owner: result != nil ==> result.name != name && exists hi int, pi int, bi int :: 0 <= hi && hi < len(options.Hosts) && 0 <= pi && pi < len(options.PathPrefixes) && haskey(m.requestServiceMap, options.Hosts[hi]) && 0 <= bi && bi < len(m.requestServiceMap[options.Hosts[hi]]) && m.requestServiceMap[options.Hosts[hi]][bi].service == result && m.requestServiceMap[options.Hosts[hi]][bi].pathPrefix == options.PathPrefixes[pi]
 //@ loop 1 invariant[C05] hosts_checked: forall hi int, pi int :: 0 <= hi && hi < idx && 0 <= pi && pi < len(options.PathPrefixes) ==> !ownedByOther(m, coll[hi], options.PathPrefixes[pi], name)
 //@ loop 1 invariant same: coll == options.Hosts && idx <= len(coll)
 //@ loop 2 invariant[C05] prefixes_checked: forall pi int :: 0 <= pi && pi < idx ==> !ownedByOther(m, host, coll[pi], name)
@@ -1047,6 +1058,7 @@ package server
 //@ ensures[C17] bounded_by_deploy_plus_drain_timeout: now <= old(now) + max(deployTimeout, 0) + max(drainTimeout, 0)
 //@ ensures[C01,C06] outcome_of_the_deploy_is_reported: all(DeployTargets, $5 == (err == nil))
 //@ ensures[C01,C06] a_failed_deploy_removes_nothing: none(CmdRemove) && none(RemoveService) && none(DisposeService)
+//@ ensures[C06,C10] a_rollout_deploy_leaves_the_split_alone: none(RolloutStopped) && none(RolloutSplit)
 
 //@ func (*server.Router).SetRolloutSplit
 //@ emits CmdRolloutSet(r, name, percent, isnil(result))
@@ -1063,8 +1075,9 @@ package server
 //@ requires r.services != nil
 //@ attr blocks
 //@ assigns Service.rolloutController, `os.File`.content
-//@ may_emit Snapshot, RolloutSplit, ListServices, CreateTemp, JsonEncode, JsonEncoded, FileClose, FileClosed, FsRename, FileRemove, MarshalService, FsTruncate
+//@ may_emit Snapshot, RolloutSplit, RolloutStopped, ListServices, CreateTemp, JsonEncode, JsonEncoded, FileClose, FileClosed, FsRename, FileRemove, MarshalService, FsTruncate
 //@ ensures[C12,C11,C03,C05,C06,C07,C08,C10] snapshot_taken: last_is(Snapshot(r))
+//@ ensures[C06,C10] unknown_service_rejected: none(RolloutStopped) ==> err == ErrorServiceNotFound
 //@ ensures[C17] returns_without_waiting: now == old(now)
 
 //@ func (*server.Router).PauseService
@@ -1294,3 +1307,9 @@ package server
 //@ assigns *
 //@ may_emit *
 //@ ensures[C15,C06] an_error_response_can_be_written_however_late_the_target_fails: err == nil ==> s.httpServer.WriteTimeout == 0 && s.httpsServer.WriteTimeout == 0 && s.httpServer.ReadTimeout == 0 && s.httpsServer.ReadTimeout == 0
+
+//@ func server.PerformConcurrently
+//@ attr blocks
+//@ assigns *
+//@ may_emit *
+//@ ensures[C03,C06,C07,C08,C17] waits_for_what_it_started: count(WgWait(_)) == 1
